@@ -235,7 +235,7 @@ def translate(repo, lean_root):
         if not e:
             unaudited.append(f"{s['file']}:{s['line']} fn {s['fn']} [{s['kind']}] {s['text']}")
     stale = [k for k in allow if k not in seen]
-    out = ["-- GENERATED by lib/scan_panics.py from the pallas sources + lib/panic_audit_C09.json — do not edit",
+    out = ["-- GENERATED by lib/scan_panics_c09.py from the pallas sources + lib/panic_audit_C09.json — do not edit",
            "namespace PallasVerif.Gen.PanicSitesC09",
            "/-- (file, fn, kind, verdict) of every syntactic panic site in the anchored decoder files -/",
            "def sites : List (String × String × String × String) := ["]
